@@ -105,9 +105,9 @@ func vfC19(c *hx.Ctx) {
 			cf.Cipher = ciph
 			bound := 0
 			if mode == "fates" {
-				cf.K = hx.Pick(c, 4, 5)
+				cf.K = hx.Pick(c, 5, 6)
 			} else {
-				bound = hx.Pick(c, 1, 2)
+				bound = hx.Pick(c, 1, 3)
 			}
 			body := func(p *vfPair) {
 				var slog, clog vfOOBLog
@@ -199,7 +199,7 @@ func vfC19(c *hx.Ctx) {
 	for _, scen := range []string{"two-clients", "reconnect-same-address", "reconnect-listener-side"} {
 		scen := scen
 		cf := base
-		cf.K = hx.Pick(c, 2, 3)
+		cf.K = hx.Pick(c, 3, 5)
 		cf.Fates = []int{vfDeliver, vfDrop, vfReorder}
 		if scen == "reconnect-listener-side" {
 			// no delayed copies of the old conversation's first data packet: a late sn=0 segment of another conversation
